@@ -1,4 +1,48 @@
 TEXT = {
+ 'C01': {
+  'text': 'Relational claim decided in three parts. (1) Regenerated facts closed by decide +kernel: every instruction table Frontier..Shanghai '
+          'equals go-ethereum v1.12.0\'s outside 0xe0-0xe7 (execute/dynamic-gas/memory-size function names, constant gas, stack bounds), '
+          'precompile sets agree outside 0x64-0x66, and every declaration of vm, core/evm.go, tracers/** that is not identical to upstream '
+          '(normalised go/ast) is in the hand-modelled delta. (2) Lean theorems on the frame model: the frame functions never read the Artela '
+          'tracer or join-point log (replacing them changes nothing else), and a join point with nothing bound leaves gas, return data, error, '
+          'world and callbacks exactly as with join points off. (3) Differential execution on every run: generated standard programs '
+          '(multi-contract, every call kind, creates, raw bytes, extra EIPs) on fork and upstream EVMs in one process, comparing result, error, '
+          'leftover gas, refund, state root, logs and the full step trace.',
+  'note': 'Partial: inherited instruction bodies are not modelled (identity-checked + differentially executed). Known finding D18: opcode '
+          'names of bytes 0x5c-0x5e/0xb3/0xb4 differ, so the invalid-opcode error text differs for programs executing them before Cancun.',
+  'technique': 'regenerated identity/table facts (decide +kernel) + Lean refinement lemmas on the frame delta + differential execution vs go-ethereum',
+ },
+ 'C02': {
+  'text': 'Same machinery as C01 with the gas projection: the step trace compared with upstream carries gas before and cost of every '
+          'instruction, gas handed to and returned by every frame (enter/exit callbacks), refund and leftover; each case is re-run at gas limits '
+          'one below, exactly on and one above sampled intermediate gas values (S upstream-same-gas-sweep). The Lean part proves the frame '
+          'functions\' gas rule (tailGas) and that unbound join points hand gas through unchanged; gas functions of instructions are inherited '
+          '(identity table).',
+  'note': 'Partial as C01: the gas schedule itself is upstream source, identity-checked and differentially executed, not modelled.',
+  'technique': 'differential execution with gas-limit sweep + regenerated table facts + Lean gas-rule lemmas',
+ },
+ 'C18': {
+  'text': 'Lean: the debug callbacks emitted by EVM.Call stay balanced on every path including join-point aborts (openCount invariant), do not '
+          'depend on the Artela tracer, are unchanged by unbound join points; without Aspect events the fork call tracer never creates an Aspect '
+          'frame (its remaining code is upstream\'s); every inherited tracer declaration is identical to upstream (regenerated identity table). '
+          'Runs: full callback streams fork vs upstream on generated programs; call, flat-call, 4byte, prestate (plain/diff) tracers and the '
+          'struct logger of both sides on the same executions compared byte for byte; S balanced on call-tree programs with failing join points.',
+  'note': 'Partial: balance is proved for EVM.Call (the function join points can abort) and checked for all frame functions on runs; log '
+          'collection of the call tracer is compared with upstream but not modelled. Known finding D18 (opcode names).',
+  'technique': 'Lean invariant on the callback stream + regenerated identity facts + paired tracers on paired implementations',
+ },
+ 'C19': {
+  'text': 'Lean 4 theorems on the call-tracer machine (callbacks as events, Go indexing partial): for EVERY event sequence, in either '
+          'configuration, the nested tracer never panics (invariant: non-empty stack, valid ids, a frame with a running join point has an Aspect '
+          'frame); a returning call is filed under the Aspect frame running on its parent if any, else under the parent; an Aspect exit is '
+          'recorded on the Aspect frame entered last on the current call with its own gas used, output and error. Every run feeds streams '
+          'generated from the property\'s tree grammar (several Aspects per join point, calls from inside Aspects, all frame kinds, precompile '
+          'targets) to the real callTracer and flatCallTracer (onlyTopCall, includePrecompiles) and compares GetResult() with the model, with the '
+          'rendering of the generating tree (S ctrender) and with the flat invariants: subtraces = emitted children, addresses unique and '
+          'prefix-closed (S ctflatinv).',
+  'note': 'Partial: exact rendering and the flat invariants are checked against the generating tree, not proved. Fixed defects D13a-c, D17.',
+  'technique': 'Lean no-panic invariant over all callback sequences + tree-grammar correspondence with independent rendering',
+ },
  'C04': {
   'text': 'Lean 4 theorem over the frame machine (a statement-by-statement model of EVM.Call/CallCode/DelegateCall/StaticCall/create run on an '
           'ARBITRARY sequence of interpreter events, environment answers and join-point outcomes): every call frame that ends in an error leaves '
